@@ -1,6 +1,6 @@
 (* C16 — shape of the generated cases and the two executable verdicts. No proofs. *)
 From VLib Require Import CaseLib.
-From C16 Require Import Model ModelExt ModelDeadline.
+From C16 Require Import Model ModelExt ModelDeadline ModelRetain.
 
 Definition ids_eqb (a b : ids) : bool := key_eqb a b.
 Definition doc_eqb (a b : doc) : bool := key_eqb (fst a) (fst b) && N.eqb (snd a) (snd b).
@@ -477,7 +477,11 @@ Inductive case :=
       (fetch : bool) (answered : list src) (impl : sres)
 (* the same through the real proxyapi handlers Search / ComplexSearch / GetAggregation / GetHistogram *)
 | CDlApi (h : handler) (d : option nat) (hot hotread cold : list tshard) (off size : nat) (rev : bool) (itv : N)
-         (naggs : nat) (answered : list src) (impl : api).
+         (naggs : nat) (answered : list src) (impl : api)
+(* one real retention pass (FracManager.shrinkSizes) on a real fraction manager: OldestCT before, the creation
+   times in list order before the pass, the number of fractions truncated, OldestCT after, and the real
+   earlierThanOldestFrac verdict for some `from` values (all times replaced by their rank) *)
+| CRetain (prev : N) (cts : list N) (k : nat) (oldest_impl : N) (probes : list (N * bool)).
 
 Definition sres_agrees (m impl : sres) : bool :=
   match m, impl with
@@ -542,6 +546,9 @@ Definition case_agrees (c : case) : bool :=
   | CDlApi h d hot hotread cold off size rev itv naggs answered impl =>
       existsb (fun pp => dlapi_agrees h itv (tapi_of isort h (fst pp) (snd pp) d hot hotread cold off size rev itv naggs 0 []) impl)
               bools2
+  | CRetain prev cts k oldest_impl probes =>
+      N.eqb (oldest_after prev cts k) oldest_impl
+      && forallb (fun p => Bool.eqb (earlier_than_oldest (oldest_after prev cts k) (fst p)) (snd p)) probes
   end.
 
 (* implementation output satisfies the property *)
@@ -580,6 +587,13 @@ Definition case_spec_ok (c : case) : bool :=
       existsb (dl_allowed d hot hotread cold off size rev itv naggs answered impl) bools2
   | CDlApi h d hot hotread cold off size rev itv naggs answered impl =>
       existsb (dlapi_allowed h d hot hotread cold off size rev itv naggs answered impl) bools2
+  | CRetain prev cts k oldest_impl probes =>
+      (* OldestCT is the creation time of the oldest REMAINING fraction, and the hot store refuses exactly the
+         ranges that start before every remaining fraction was created *)
+      let rest := skipn k cts in
+      negb (is_nil rest) && forallb (fun c => negb (N.eqb c 0)) rest
+      && memb N.eqb oldest_impl rest && forallb (N.leb oldest_impl) rest
+      && forallb (fun p => Bool.eqb (snd p) (forallb (N.ltb (fst p)) rest)) probes
   end.
 
 Definition diff_indices (l : list case) : list nat := bad_indices (fun c => negb (case_agrees c)) l.
